@@ -479,6 +479,9 @@ class VC:
         raise OutsideSubset(f'attribute {name}')
 
     def ev_Subscript(self, e, P):
+        hk = self.c.calls.get('subscript:' + ast.unparse(e))
+        if hk is not None:
+            return hk(self, P, e)
         v = P.deref(self.ev(e.value, P))
         if isinstance(e.slice, ast.Slice):
             return self.slice(v, e.slice, P, e.lineno)
@@ -564,7 +567,15 @@ class VC:
     def ev_GeneratorExp(self, e, P):
         return self.ev_ListComp(e, P)
 
-    def ev_JoinedStr(self, e, P): return VStr('<fstring>')
+    def ev_JoinedStr(self, e, P):
+        # f-string as its template: constant parts verbatim, {expr} placeholders by source text (contracts match on the template)
+        parts = []
+        for v in e.values:
+            if isinstance(v, ast.Constant): parts.append(str(v.value))
+            elif isinstance(v, ast.FormattedValue) and v.format_spec is None and v.conversion == -1:
+                parts.append('{' + ast.unparse(v.value) + '}')
+            else: parts.append('{?}')
+        return VStr(''.join(parts))
 
     def ev_Call(self, e, P):
         fname = ast.unparse(e.func)
@@ -642,6 +653,9 @@ class VC:
             if len(items) != len(target.elts): raise OutsideSubset('unpack arity')
             for t, x in zip(target.elts, items): self.assign(t, x, P)
         elif isinstance(target, ast.Subscript):
+            hk = self.c.calls.get('setitem:' + ast.unparse(target))
+            if hk is not None:
+                hk(self, P, target, val); return
             self.store(target, val, P)
         elif isinstance(target, ast.Attribute):
             h = self.c.calls.get('setattr:' + ast.unparse(target))
